@@ -270,6 +270,18 @@ func (g *PG) stmt(depth int) {
 	case k < 30: // assignment forms
 		iv := g.vars("int")
 		switch c := r.Intn(10); {
+		case c == 8 && len(iv) > 0 && len(g.vars("[]int")) > 0 && r.Bool(): // a target's index operand is another target
+			g.f("multi-assign-dependent-targets")
+			sv, v := Pick(r, g.vars("[]int")), Pick(r, iv)
+			if r.Bool() {
+				g.w("%s[(%s%%3+3)%%3], %s = %s, %s\n", sv, v, v, g.intExpr(1), g.intExpr(1))
+			} else {
+				g.w("%s, %s[(%s%%3+3)%%3] = %s, %s\n", v, sv, v, g.intExpr(1), g.intExpr(1))
+			}
+		case c == 8 && len(g.vars("*T")) > 0 && r.Bool():
+			g.f("multi-assign-dependent-targets")
+			tv := Pick(r, g.vars("*T"))
+			g.w("%s.A, %s = %s, &T{A: %s, B: 2}\n", tv, tv, g.intExpr(1), g.intExpr(1))
 		case c == 9 && len(g.vars("string")) > 0:
 			g.f("string-assign")
 			if sv := Pick(r, g.vars("string")); r.Bool() {
